@@ -1,7 +1,80 @@
-//! AverageDirectionalIndex — reference model (TODO).
+//! AverageDirectionalIndex. Doc: 3 values — `ADX`, `+DI`, `-DI`, each in [0, 1]; linked formula
+//! (stockcharts, without the factor 100):
+//!   +DM = high − high[k ago] if it is > low[k ago] − low and > 0, else 0; −DM mirrored (k = `period1`);
+//!   +DI = MA1(+DM) / MA1(TR), −DI = MA1(−DM) / MA1(TR);
+//!   DX = |+DI − −DI| / (+DI + −DI); ADX = MA2(DX).
+//! 2 signals: #0 ADX over `zone` and +DI > −DI: full buy; ADX over `zone` and −DI > +DI: full sell; else none.
+//!            #1 digital signal by the difference +DI − −DI.
 use super::*;
+use crate::Ser;
 
-/// returns None until the reference is written
-pub fn make(_cfg: &Cfg, _c0: &RC) -> Option<Box<dyn IndRef>> {
-	None
+#[derive(Clone)]
+pub struct AverageDirectionalIndex {
+	k: usize,
+	zone: f64,
+	hi: Ser,
+	lo: Ser,
+	prev_close: f64,
+	tr_ma: Box<dyn rm::RefVV>,
+	pdm_ma: Box<dyn rm::RefVV>,
+	mdm_ma: Box<dyn rm::RefVV>,
+	adx_ma: Box<dyn rm::RefVV>,
+}
+
+pub fn make(cfg: &Cfg, c0: &RC) -> Option<Box<dyn IndRef>> {
+	let k = cfg.int("period1");
+	// constant prehistory: true range of the first candle against its own close, no directional
+	// movement at all, hence DX = 0 († see below) and ADX = 0
+	let tr0 = c0.tr(c0.c);
+	Some(Box::new(AverageDirectionalIndex {
+		k,
+		zone: cfg.float("zone"),
+		hi: Ser::exact_cap(c0.h, k + 2),
+		lo: Ser::exact_cap(c0.l, k + 2),
+		prev_close: c0.c,
+		tr_ma: cfg.ma_ref("method1", tr0),
+		pdm_ma: cfg.ma_ref("method1", Q::exact(0.0)),
+		mdm_ma: cfg.ma_ref("method1", Q::exact(0.0)),
+		adx_ma: cfg.ma_ref("method2", Q::exact(0.0)),
+	}))
+}
+
+fn exactly_zero(q: &Q) -> bool {
+	q.v == 0.0 && q.r == 0.0
+}
+
+impl IndRef for AverageDirectionalIndex {
+	fn values(&mut self, c: &RC) -> Vec<Q> {
+		// true range against the previous candle's close
+		let tr = c.tr(self.prev_close);
+		self.prev_close = c.c;
+		self.hi.pushv(c.h);
+		self.lo.pushv(c.l);
+		// single subtractions of exactly known prices
+		let du = self.hi.back(0).v - self.hi.back(self.k).v;
+		let dd = self.lo.back(self.k).v - self.lo.back(0).v;
+		let pdm = if du > dd && du > 0.0 { du } else { 0.0 };
+		let mdm = if dd > du && dd > 0.0 { dd } else { 0.0 };
+		let atr = self.tr_ma.stepq(tr);
+		let sp = self.pdm_ma.stepq(Q::exact(pdm));
+		let sm = self.mdm_ma.stepq(Q::exact(mdm));
+		// 0 / 0 while there has never been any range: the directional indicators are undefined
+		// (the division is undefined as well whenever the averaged range cannot be told from 0)
+		let (pdi, mdi) = (sp / atr, sm / atr);
+		let dx = if exactly_zero(&sp) && exactly_zero(&sm) {
+			// † follows the implementation: without any directional movement (+DI + −DI = 0, DX = 0 / 0)
+			// the averaged index is fed with 0
+			Q::exact(0.0)
+		} else {
+			(pdi - mdi).abs() / (pdi + mdi)
+		};
+		let adx = self.adx_ma.stepq(dx);
+		vec![adx, pdi, mdi]
+	}
+	fn signals(&mut self, _c: &RC, own: &[f64]) -> Vec<Sig> {
+		let (adx, pdi, mdi) = (own[0], own[1], own[2]);
+		let s0 = if adx > self.zone { sig_sign((pdi > mdi) as i32 - (mdi > pdi) as i32) } else { Sig::None };
+		vec![s0, sig_ratio(pdi - mdi)]
+	}
+	indref!(AverageDirectionalIndex);
 }
